@@ -306,6 +306,96 @@ pub fn main(args: &[String]) {
             println!("DEEP {out}");
             std::process::exit(0);
         }
+        Some("charmap") => {
+            // CharmapSelect.tla: a raw cmap table with the family's encoding records, each pointing to a subtable of its own
+            // that maps one character (U+0041 or U+F041) to glyph <record number>; skrifa's Charmap must answer from the
+            // record the specification chooses
+            use skrifa::MetadataProvider;
+            let path = arg_after(args, "--cases").expect("--cases");
+            fvcore::tlc_stream(&path, &["CMSEL"], |_, c| {
+                rep.evaluations += 1;
+                let recs = c["records"].as_array().unwrap();
+                let mut subtables: Vec<Vec<u8>> = vec![];
+                for (i, r) in recs.iter().enumerate() {
+                    let gid = (i + 1) as u16;
+                    let cp: u16 = if r["pua"] == true { 0xF041 } else { 0x41 };
+                    let mut t: Vec<u8> = vec![];
+                    match r["f"].as_u64().unwrap() {
+                        4 => {
+                            for v in [4u16, 32, 0, 4, 4, 1, 0, cp, 0xFFFF, 0, cp, 0xFFFF, gid.wrapping_sub(cp), 1, 0, 0] {
+                                t.extend(v.to_be_bytes());
+                            }
+                        }
+                        12 => {
+                            t.extend([0, 12, 0, 0]);
+                            for v in [28u32, 0, 1, cp as u32, cp as u32, gid as u32] {
+                                t.extend(v.to_be_bytes());
+                            }
+                        }
+                        6 => {
+                            for v in [6u16, 12, 0, cp, 1, gid] {
+                                t.extend(v.to_be_bytes());
+                            }
+                        }
+                        _ => {
+                            // format 14: one selector record (U+FE00) with a non-default mapping of the character
+                            t.extend([0, 14]);
+                            t.extend(30u32.to_be_bytes());
+                            t.extend(1u32.to_be_bytes());
+                            t.extend([0, 0xFE, 0]);
+                            t.extend(0u32.to_be_bytes());
+                            t.extend(21u32.to_be_bytes());
+                            t.extend(1u32.to_be_bytes());
+                            t.extend([0, (cp >> 8) as u8, cp as u8]);
+                            t.extend(gid.to_be_bytes());
+                        }
+                    }
+                    subtables.push(t);
+                }
+                let mut cmap: Vec<u8> = vec![0, 0];
+                cmap.extend((recs.len() as u16).to_be_bytes());
+                let mut off = 4 + 8 * recs.len();
+                for (i, r) in recs.iter().enumerate() {
+                    cmap.extend((r["p"].as_u64().unwrap() as u16).to_be_bytes());
+                    cmap.extend((r["e"].as_u64().unwrap() as u16).to_be_bytes());
+                    cmap.extend((off as u32).to_be_bytes());
+                    off += subtables[i].len();
+                }
+                for t in &subtables {
+                    cmap.extend(t);
+                }
+                let mut b = write_fonts::FontBuilder::new();
+                b.add_raw(font_types::Tag::new(b"cmap"), cmap);
+                b.add_raw(font_types::Tag::new(b"maxp"), vec![0, 0, 0x50, 0, 0, 8]);
+                let font = b.build();
+                let case = json!({"kind": "charmap-case", "records": recs});
+                let got = guarded(|| {
+                    let f = read_fonts::FontRef::new(&font).unwrap();
+                    let cm = f.charmap();
+                    let g = |c: u32| cm.map(c).map(|g| g.to_u32()).unwrap_or(0);
+                    json!({"a": g(0x41), "pua": g(0xF041), "other": g(0x42), "symbol": cm.is_symbol(), "variant": cm.has_variant_map(), "has_map": cm.has_map(),
+                           "n": cm.mappings().take(10).count()})
+                });
+                match got {
+                    Err(p) => rep.violation(&format!("building / querying a character map panicked: {p}"), case),
+                    Ok(g) => {
+                        let want_n = if c["chosen"].as_u64().unwrap() > 0 { 1 } else { 0 };
+                        let same = g["a"] == c["a"] && g["pua"] == c["pua"] && g["other"] == c["other"] && g["symbol"] == c["symbol"] && g["variant"] == c["variant"]
+                            && g["has_map"] == json!(want_n == 1) && g["n"] == json!(want_n);
+                        if same {
+                            rep.distinct += 1;
+                        } else {
+                            // which subtable is preferred is not demanded by the listed properties: reported, not a violation
+                            rep.add("outcome_differs_from_model", 1);
+                            if rep.samples.len() < 4 {
+                                rep.sample(json!({"case": case, "real": g, "model": {"chosen": c["chosen"], "a": c["a"], "pua": c["pua"], "symbol": c["symbol"], "variant": c["variant"]}}));
+                            }
+                        }
+                    }
+                }
+            });
+            rep.traces = rep.evaluations;
+        }
         Some("deep") => {
             let exe = std::env::current_exe().unwrap();
             for what in ["paint", "composite"] {
